@@ -204,12 +204,34 @@ pub async fn run_cases(
             continue;
         };
         if !bases.contains_key(backend) {
-            bases.insert(backend.to_string(), make_base(scratch, backend).await?);
+            let mut made = None;
+            for attempt in 0..3 {
+                match make_base(scratch, backend).await {
+                    Ok(b) => {
+                        made = Some(b);
+                        break;
+                    }
+                    Err(e) => eprintln!("creating the base account failed (attempt {attempt}): {e:?}"),
+                }
+            }
+            match made {
+                Some(b) => {
+                    bases.insert(backend.to_string(), b);
+                }
+                None => {
+                    out.count("harness_case_errors", 1);
+                    continue;
+                }
+            }
         }
         let base = bases.get(backend).unwrap();
         let dir = scratch.join(format!("case{}", out.evaluated));
         let _ = std::fs::remove_dir_all(&dir);
-        copy_dir_all(&base.dir, &dir)?;
+        if let Err(e) = copy_dir_all(&base.dir, &dir) {
+            eprintln!("copying the base account failed: {e:?}");
+            out.count("harness_case_errors", 1);
+            continue;
+        }
         out.evaluated += 1;
         let hist = case["hist"].as_array().cloned().unwrap_or_default();
         let crashing = hist.last().cloned().unwrap_or(json!([]));
